@@ -16,6 +16,8 @@ use std::sync::Arc;
 pub struct SeedChunk {
     pub path: String,
     pub ids: Vec<i64>,
+    /// canonical row strings (floats bitwise)
+    pub rows: Vec<String>,
     pub min: i64,
     pub max: i64,
     pub level: u32,
@@ -39,7 +41,9 @@ pub async fn seed_dataset(
     for c in 0..n_chunks {
         let b = (c % buckets.max(1)) as i64;
         let nrows = 1 + sim::w(4) as usize;
-        let rows: Vec<Row> = (0..nrows).map(|i| gen.row(base_ts + b * HOUR + (c as i64 * 10 + i as i64) * SEC, false)).collect();
+        // a quarter of the chunks carry extreme values (both zeros, NaN, infinities, subnormals, NULL)
+        let extreme = sim::w(4) == 3;
+        let rows: Vec<Row> = (0..nrows).map(|i| gen.row(base_ts + b * HOUR + (c as i64 * 10 + i as i64) * SEC, extreme)).collect();
         let rb = batch(variant, &rows);
         let bytes = pw.write_batch(&rb).expect("parquet");
         let path = format!("default/data/seed/chunk_{c}.parquet");
@@ -50,7 +54,7 @@ pub async fn seed_dataset(
         let want = levels.get(c).copied().unwrap_or(0);
         let mut ctr = 0u32;
         raise_to(meta, &path, min, max, want, &mut ctr, c).await;
-        out.push(SeedChunk { path, ids: rows.iter().map(|r| r.id).collect(), min, max, level: want, size: bytes.len() as u64 });
+        out.push(SeedChunk { path, ids: rows.iter().map(|r| r.id).collect(), rows: decode_parquet(bytes.clone()).expect("seed chunk decodes").iter().flat_map(row_strings).collect(), min, max, level: want, size: bytes.len() as u64 });
     }
     out
 }
@@ -111,25 +115,29 @@ pub async fn catalog_now(inner: &Arc<InMemory>) -> Option<MetadataCatalog> {
 /// ids held by every data file ever PUT (from recorded payloads) plus the seed files still in the store.
 pub struct FileIndex {
     pub ids: BTreeMap<String, Vec<i64>>,
+    pub rows: BTreeMap<String, Vec<String>>,
 }
 
 impl FileIndex {
     pub async fn build(inner: &Arc<InMemory>, seeds: &[SeedChunk]) -> FileIndex {
         let mut ids = BTreeMap::new();
+        let mut rows = BTreeMap::new();
         for s in seeds {
             ids.insert(s.path.clone(), s.ids.clone());
+            rows.insert(s.path.clone(), s.rows.clone());
         }
         for e in store::events() {
             if e.op == "PUT" && e.ok && e.path.ends_with(".parquet") {
                 if let Some(p) = &e.payload {
                     if let Ok(bs) = decode_parquet(p.clone()) {
                         ids.insert(e.path.clone(), bs.iter().flat_map(ids_of).collect());
+                        rows.insert(e.path.clone(), bs.iter().flat_map(row_strings).collect());
                     }
                 }
             }
         }
         let _ = inner;
-        FileIndex { ids }
+        FileIndex { ids, rows }
     }
 }
 
